@@ -4,7 +4,7 @@ from ._util import q as _q
 ID = "C03"
 PROP = {
     "level": "exploration",
-    "level_text": ("Exploration: every run executes Clipper64 on ~80 thousand (quick) to ~2.4 million (thorough) generated inputs "
+    "level_text": ("Exploration: every run executes Clipper64 on ~160 thousand (quick) to ~4 million (thorough) generated inputs "
                    "(general-position scenes at nine magnitude classes, degenerate rectilinear scenes, a degenerate-input zoo with "
                    "and without open subjects, unfiltered random polygons) under all 64 clip-type/fill-rule/PreserveCollinear/"
                    "ReverseSolution combinations and two builds, and inspects every closed solution path with an exact (128-bit) "
@@ -23,7 +23,7 @@ PROP = {
     "assumptions": ["exact __int128 geometry in harness/common/geom.h and harness/c03_solcheck.h is correct",
                     "geometric claims: inputs outside general position that are not axis-parallel are not judged",
                     "coordinates beyond 2^61 are not explored (C11 covers range errors)"],
-    "floor": _q(30000, 900000),
+    "floor": _q(80000, 2000000),
     "must_count": _q(["solutions_structural_checked", "solutions_geometric_checked", "s_vertices_checked", "s3_vertices_checked",
                       "g2g5_triples", "g3_edge_pairs", "g4_nest_pairs_point_tested", "g6_vertices", "g7_reunions",
                       "geo_nonempty_gp", "geo_nonempty_rect", "cls_zoo", "cls_rand"],
@@ -32,7 +32,7 @@ PROP = {
                       "geo_nonempty_gp", "geo_nonempty_rect", "cls_zoo", "cls_rand"]),
     "timeout": _q(240, 3600),
     "jobs": [
-        {"mon": "mon_c03", "cfg": "plain", "cases": _q(50000, 1500000)},
-        {"mon": "mon_c03", "cfg": "hp", "cases": _q(30000, 900000), "seed_off": 1000003},
+        {"mon": "mon_c03", "cfg": "plain", "cases": _q(100000, 2500000)},
+        {"mon": "mon_c03", "cfg": "hp", "cases": _q(60000, 1500000), "seed_off": 1000003},
     ],
 }
